@@ -266,7 +266,9 @@ PROPS = {
             "set.added()/removed() enumerate the delta bits of the current window; mutation.add/remove are set insert/erase (C05)",
         ],
         "assumptions": [],
-        "not_decided": ["TSL, TSD and TSW pairs", "the record/replay nodes (memory_impl) beyond the dense index arithmetic (clang 14 cannot parse their translation unit)"],
+        "not_decided": ["TSL, TSD and TSW capture/apply pairs are not proved: only the bounded round trip (native:c20_roundtrip) and the bounded delta coherence (native:c05_deltas) exercise them",
+                        "the record/replay nodes (memory_impl) beyond the dense index arithmetic (clang 14 cannot parse their translation unit): bounded round trip only",
+                        "nested shapes (TSD of TSS etc.) in the round trip; sparse (:memory:) recordings"],
     },
     "C06": {
         "modules": ["contracts.c06_wiring"],
